@@ -1436,6 +1436,10 @@ pub fn c14(a: &Analysis, sc: &Scenario) -> Vec<Violation> {
             _ => {}
         }
     }
+    // `End` is a command the context task obeys when it is next polled: an operation that was
+    // first polled before that moment was started while the context still existed (it is an
+    // ordinary pending operation then, judged below)
+    late_ops.retain(|i| a.ops.get(i).and_then(|o| o.first_poll).map(|fp| fp > gone).unwrap_or(true));
     for t in &a.live_at_end {
         match t {
             TaskRef::Op(i) => {
